@@ -135,6 +135,10 @@ def run_case(ctx, case):
         else:
             curve = make_curve(Ui, Pi, None)
         rec.count("rep", rep)
+        if rep != "float":
+            for tw in mixed_twins(Ue, Pe, None):      # numerically equal python-int / float knots first
+                impl(lambda: Integrate.scalar(tw))
+                rec.count("twin", "mixed-knot-types-first")
         start = curve_state(curve)
         kwargs = {}
         if method is not None:
@@ -220,6 +224,8 @@ def run(ctx):
                            P=[(F(-5, 3),), (F(-6),), (F(0),), (F(-1, 7),), (F(10, 3),)], rep="float", method="closed", nnodes=None)))
     for i in range(budget(ctx, 60, 800)):
         U = rand_kv(rng, pmax=4, nintmax=3)
+        if i % 7 == 4:
+            U = rand_int_kv(rng, pmax=3, nintmax=2) if rng.random() < 0.5 else rand_dyadic_kv(rng, pmax=3, nintmax=2)
         p, n, _ = kv_info(U)
         P = rand_points(rng, n, 1)      # Integrate.scalar is defined for scalar-valued curves
         rep = rng.choice(["fraction", "fraction", "float"])
